@@ -229,7 +229,7 @@ static void ProcessFile(char const* FileName, LongWord Offset) {
                 FormatError(FileName, getmessage(Num_FormatInvRecordLenMsg));
             }
 
-            doit = (FilterOK(InpHeader) && (InpSegment == ValidSegment));
+            doit = (FilterOK(InpCPU) && (InpSegment == ValidSegment));
 
             if (doit) {
                 InpStart += Offset;
@@ -377,7 +377,7 @@ static void MeasureFile(char const* FileName, LongWord Offset) {
                 FormatError(FileName, getmessage(Num_FormatInvRecordLenMsg));
             }
 
-            if (FilterOK(Header) && (Segment == ValidSegment)) {
+            if (FilterOK(CPU) && (Segment == ValidSegment)) {
                 Adr += Offset;
                 EndAdr = Adr + (Length / Gran) - 1;
                 if (Gran > MaxGran) {
